@@ -430,8 +430,18 @@ def item_fn(method, bs, rate, nb, mode, opts=None):
             if 'nxl' in m.needs:
                 T.dims = (T.dims[0], int(T.dims[1]), T.dims[2])
         st = make_store(T)
-        f = shenv.ShimFile(st)
-        r = R.SgzReader(f, chunk_cache_size=opts.get('chunk_cache_size'))
+        f = shenv.ShimBlob(st) if opts.get('backend') == 'blob' else shenv.ShimFile(st)
+        with Quiet():
+            r = R.SgzReader(f, chunk_cache_size=opts.get('chunk_cache_size'), preload=bool(opts.get('preload')))
+        if opts.get('warm'):
+            # an arbitrary earlier in-range call of the same method (cache warm-up); only the second call is observed
+            a0 = [E.fresh('w_' + n) for n in m.argn]
+            E.assume(m.inr(T, a0))
+            try:
+                with Quiet():
+                    m.call(r, a0)
+            except Exception:
+                pass
         n_init_reads = len(st.reads)
         hook = opts.get('after_call')
         run_method(E, m, T, r, mode, after_call=(lambda a, res: hook(E, m, T, r, st, n_init_reads, a, res)) if hook else None)
